@@ -292,7 +292,7 @@ func (ga *GenAnalysis) readRecord(gf *genfacts.GenFile, spec genfacts.RecordSpec
 		if len(fd.Recv.List) == 1 {
 			_, mf.PtrRecv = fd.Recv.List[0].Type.(*ast.StarExpr)
 		}
-		l := &wire.Lifter{Info: gf.Info, Fset: gf.Fset, Src: gf.Snippet}
+		l := &wire.Lifter{Info: gf.Info, Fset: gf.Fset, Src: gf.Snippet, RecClass: goRecClass}
 		if iohelp != nil {
 			l.Iohelp = iohelp.Types
 		}
@@ -470,4 +470,19 @@ func (l lazyWhere) String() string { return l.rf.where(l.pos) }
 
 func (rf *RecFacts) where(pos token.Pos) string {
 	return fmt.Sprintf("generated %s %s under options %s: %s", kindName(rf.Spec.Kind), rf.shapeKey(), rf.GF.Opts, rf.GF.Line(pos))
+}
+
+// goRecClass gives the record class of a Go type name of the exploration
+// universe (names are matched case-insensitively: the private-definitions
+// option only changes the first letter).
+func goRecClass(goName string) string {
+	switch strings.ToLower(goName) {
+	case "sta", "ste", "str", "stm", "lowst", "ist", "ibs", "ubs", "ube":
+		return "struct"
+	case "msa", "mse", "ims", "ubm":
+		return "message"
+	case "una", "iun":
+		return "union"
+	}
+	return ""
 }
